@@ -40,10 +40,12 @@ func (r *balanceReporterCollapsed) Flush() error {
 }
 
 // getJump follows the chain of sole children that starts at node and returns
-// the names along the chain and the node at which the chain ends
+// the names along the chain and the node at which the chain ends. A category
+// that has entries of its own (its total differs from its only child's) ends
+// the chain: joining it with the child would hide the child's amount.
 func getJump(node *shared.TreeNode) ([]string, *shared.TreeNode) {
 	names := []string{node.Name}
-	for len(node.Children) == 1 {
+	for len(node.Children) == 1 && node.FirstChild().Total == node.Total {
 		node = node.FirstChild()
 		names = append(names, node.Name)
 	}
